@@ -62,10 +62,11 @@ REASONS = {
 
 
 def sessions():
-    return st.builds(lambda c, s, r, pre, pc, pw, rs, wr, lic, lw, wc: {"cmds": c, "sched": s, "reason": r, "pre_wd": pre,
+    return st.builds(lambda c, s, r, pre, pc, pw, rs, wr, lic, lw, wc, dbg: {"cmds": c, "sched": s, "reason": r, "pre_wd": pre,
                                                                         "post_cmds": pc, "post_wd": pw, "resubmit": rs,
                                                                         "wd_reenter": wr, "lose_in_cb": lic,
-                                                                        "late_watch": lw, "wd_cancel": wc},
+                                                                        "late_watch": lw, "wd_cancel": wc,
+                                                                        "debug": dbg},
                      st.lists(c01.commands(long=False, max_parts=3), min_size=0, max_size=5),
                      c01.schedules(),
                      st.sampled_from(["done", "lost", "other"]),
@@ -73,6 +74,7 @@ def sessions():
                      st.sampled_from([0, 0, 1, 2]), st.booleans(),
                      st.one_of(st.none(), st.none(), st.none(), st.integers(0, 4)),
                      st.sampled_from([False, False, True]),
+                     st.sampled_from([False, False, False, True]),
                      st.sampled_from([False, False, False, True]))
 
 
@@ -126,6 +128,10 @@ class _CutRun(object):
 
         self.srv = ScriptedServer(self._handler)
         self.pipe = ControlPipe(self.srv, auto=False)
+        if case.get("debug"):
+            # the documented debugging aid: a transcript of the conversation in ./txtorcon-debug.log (the check runs
+            # in its own scratch directory)
+            self.pipe.proto.start_debug()
         self.boot = Watch(self.pipe.proto.post_bootstrap)
         for _ in range(case["pre_wd"]):
             self._req_wd()
@@ -364,6 +370,8 @@ def _classify(res, r, case):
         res.label("request-from-inside-disconnect-notification")
     if r.wd_cancelled:
         res.label("pending-request-cancelled-from-inside-a-notification")
+    if case.get("debug"):
+        res.label("debug-transcript-on")
     if r.lost_in_callback:
         res.label("loss-reported-from-inside-a-reply-callback")
     if r.late:
